@@ -9,6 +9,7 @@ import docgen
 from checks import docs, loadlib, loadcheck
 
 PROP = 'C07'
+DIAG_LINES_ARE_PROPERTY = True
 TARGETS = ['theories/Proofs/UnknownProofs.v', 'theories/Run/RunLoad.v']
 RULE = ('valid documents x every insertion point inside blocks that admit optional sub-elements x unknown payloads: keyword with '
         'scalar arguments, /begin X .. /end X with nested unknown blocks, comments inside; the payload never reuses a tag of the '
